@@ -328,6 +328,19 @@ def run(ctx):
                 continue
             n += len(fn.calls("fsm::GlobalData::enqueue_internal")) + len(fn.calls("fsm::Fsm::enqueue_internal"))
         ctx.floor("R03.3", "call sites of the enqueue_internal wrappers", n, 15 if ctx.config == "default" else 10)
+        # the start-up reset of the queue comes before anything of interpret that can raise an event (data model initialisation,
+        # global script, entry of the initial states): an error.execution raised at start-up must still be in the queue afterwards
+        it = F.fn("fsm::Fsm::interpret")
+        clr = [c for c in it.walk() if c.get("k") == "mcall" and c["m"] == "clear" and hirq.field_of(c["r"], NO_T) and hirq.field_of(c["r"], NO_T)[1] == "internalQueue"]
+        ctx.exact("R03.3", "internalQueue.clear sites in interpret", len(clr), 1)
+        raising = [c for c in it.walk() if c.get("k") in ("call", "mcall") and (c.get("p") or "").split("::")[-1] in (
+            "initialize_data_models_recursive", "initializeDataModel", "executeGlobalScriptElement", "enterStates", "mainEventLoop")]
+        ctx.floor("R03.3", "event-raising start-up calls in interpret", len(raising), 3)
+        idx3 = hirq.order_index(it)
+        for c in clr:
+            late = [describe(r)[:40] for r in raising if idx3[id(r)] < idx3[id(c)]]
+            ctx.ob("R03.3", site_key(it, "queue reset precedes everything that can raise at start-up"), not late and not hirq.enclosing_loops(it, c), line_of(c),
+                   "calls before the reset: %s" % (late or "none"))
     ctx.guard("R03.3", r3)
 
     # ---------------------------------------------------------------- R03.4
